@@ -121,6 +121,20 @@ fn main() {
                     }
                     roundtrip(&m)
                 }
+                // the remaining wire structs of the built-in interface: value -> JSON -> value (no model: implementation-only oracle)
+                "mk_aux" => {
+                    let os = |i: usize| -> Option<String> { if a.len() <= i || a[i] == "none" { None } else { Some(st(a[i])) } };
+                    match a[0] {
+                        "getinfoargs" => roundtrip(&varlink::GetInfoArgs),
+                        "descr_args" => roundtrip(&varlink::GetInterfaceDescriptionArgs { interface: os(1).unwrap_or_default().into() }),
+                        "descr_reply" => roundtrip(&varlink::GetInterfaceDescriptionReply { description: os(1) }),
+                        "err_iface" => roundtrip(&varlink::ErrorInterfaceNotFound { interface: os(1) }),
+                        "err_param" => roundtrip(&varlink::ErrorInvalidParameter { parameter: os(1) }),
+                        "err_method" => roundtrip(&varlink::ErrorMethodNotFound { method: os(1) }),
+                        "err_notimpl" => roundtrip(&varlink::ErrorMethodNotImplemented { method: os(1) }),
+                        _ => "UNKNOWN-OP".to_string(),
+                    }
+                }
                 "de_req" => reser::<Request>(a[0], &unhex(a[1])),
                 "de_reply" => reser::<Reply>(a[0], &unhex(a[1])),
                 "de_info" => reser::<ServiceInfo>(a[0], &unhex(a[1])),
